@@ -32,6 +32,7 @@ import (
 
 	"verif/harness/internal/engine"
 	"verif/harness/internal/ev"
+	"verif/harness/internal/loglevel"
 	"verif/harness/internal/vclock"
 )
 
@@ -261,6 +262,9 @@ func TestProxyMapOverReloads(t *testing.T) {
 				d := genDerived(t, running)
 				ran := e2eRun(d.q)
 				for _, s := range running {
+					level := loglevel.Gen().Draw(t, "log level")
+					r.Class("log level " + level)
+					defer loglevel.Set(level)()
 					r.Case()
 					if !ran[s.Name] || !(refMatch(s.URL, d.q.URL) && methodOK(s.Methods, d.q.Method)) {
 						continue
